@@ -5,6 +5,7 @@ import os
 VERIF = os.path.dirname(os.path.dirname(os.path.abspath(__file__)))
 
 MC = 'model_checking'
+ALL_IDS = [f'C{i:02d}' for i in range(1, 21)]
 
 CHECKS = {
     'C01': dict(
@@ -157,6 +158,28 @@ CHECKS = {
         technique='exhaustive enumeration of single edits and configurations (hash seed x id assignment), all-pairs grouping',
         ref='4 (C18)'),
 
+    'C19': dict(
+        text='E5: the real function body of run_timeout (re-instantiated over modelled multiprocessing/threading/ctypes/gc) is executed '
+             'under every schedule with <= 3 (thorough 4) deviations from the default choice for all 624 worker scripts (<= 3 steps from '
+             '{interruptible, native, swallow-KeyboardInterrupt/Exception/BaseException} x {return, ValueError, TimeoutError subclass, '
+             'KeyboardInterrupt}), without bound for the shortest scripts, for back-to-back and nested calls; outcome law, no interrupt to '
+             'the caller, nothing left running, no deadlock on every execution. The model facts are calibrated on the real interpreter '
+             'at every run and 664 (thorough: all) plans are co-simulated on the real ThreadPool/ctypes through gating proxies; a '
+             'mismatch breaks the check.',
+        note='Trusted: the environment model of vf/e5.py (facts F1-F5) within its calibration/co-simulation; schedules beyond the '
+             'deviation bound, thread-ident reuse and other application threads are not covered.',
+        technique='stateless schedule exploration (deviation-bounded DFS) of the implementation over a modelled scheduler + conformance replay',
+        ref='4 (C19), 3.5 E5'),
+    'C20': dict(
+        text='For 300 (thorough: all) source specs and ALL their architectures (real instances at the leaves of the derivation state '
+             'graph): every supplementary graph of the sup grammar x every option mapping (all total functions incl. the inactive '
+             'case) and existence mapping x both registration orders is resolved and compared with the documented rule; the error '
+             'alphabet (unmapped option, missing None, foreign target, duplicate mapping, unmapped sup choice, non-final source, '
+             'existence mapping without None) must raise.',
+        note='Trusted: expected option computed from the assignment recorded on the path to the leaf.',
+        technique='explicit enumeration of source architectures x sup graphs x mappings x registration orders',
+        ref='4 (C20)'),
+
     'C09': dict(
         text='Bounded-exhaustive exploration of connector settings (all type combinations up to 2x2, every existence '
              'pattern, every single exclusion; larger shapes in thorough) on the real matrix generator; oracle is brute-force '
@@ -167,7 +190,7 @@ CHECKS = {
         ref='4 (C09)'),
 }
 
-READY = {'C01', 'C02', 'C03', 'C04', 'C05', 'C06', 'C07', 'C08', 'C09', 'C10', 'C11', 'C12', 'C13', 'C14', 'C15', 'C16', 'C17', 'C18'}
+READY = set(ALL_IDS)
 
 NOT_YET = {
 }
